@@ -65,6 +65,28 @@ def split_prefixes(body: Callable[[Chooser], Any], depth: int, bound: int | None
     return level
 
 
+def split_first_deviation(body: Callable[[Chooser], Any]) -> list[tuple[int, ...]]:
+    """Roots that partition a deviation-bounded exploration evenly: the all-default execution (root ``()`` explored with
+    bound 0 by the caller: see `explore_root`) and, for every position k of it and every non-default choice i there,
+    the subtree of executions whose *first* deviation is (k, i).  Prefix splitting would leave almost everything under
+    the all-default prefix."""
+    ch = Chooser(())
+    body(ch)
+    roots: list[tuple[int, ...]] = [()]
+    for k in range(len(ch.trace)):
+        for i in range(1, ch.arity[k]):
+            roots.append((0,) * k + (i,))
+    return roots
+
+
+def explore_root(body: Callable[[Chooser], Any], bound: int | None, root: tuple[int, ...]):
+    """`explore` for a root produced by `split_first_deviation`: the empty root stands for the default execution alone."""
+    if root == ():
+        yield from explore(body, bound=0, root=())
+    else:
+        yield from explore(body, bound=bound, root=root)
+
+
 def explore(body: Callable[[Chooser], Any], bound: int | None = None,
             max_runs: int | None = None, root: tuple[int, ...] = ()) -> Iterator[tuple[tuple[int, ...], Chooser, Any]]:
     """Yield (choices, chooser, observation) for every execution within the
